@@ -48,6 +48,12 @@ def base_cases(tier, rng, both_modes=True, tol_only=False, strict_only=False, n_
         for rest in ['', 'a', '\\x{a}', '{a}', ' a', '\n\na', '%c\n', '$x$', '\\begin{e}b\\end{e}', '}', '{']:
             for tol in modes:
                 yield {'tol': tol, 'ctx': 'default', 's': first + rest}
+    # bodies read by the pylatexenc-3 verbatim-environment parser (context E): what follows \begin{vb} on its line
+    for pre in ['', ' ', '  ', '\t', ' \t ', 'k', ' k']:
+        for nl in ['\n', '', '\n\n', '\r\n']:
+            for body in ['x = 1\n', '', 'a', ' b \n c', '{', '\\end{v}']:
+                for tol in modes:
+                    yield {'tol': tol, 'ctx': gen.CONTEXTS['E'], 's': 'T ' + '\\begin{vb}' + pre + nl + body + '\\end{vb} z'}
     # environment names: every character of the documented name alphabet (and neighbours outside it), alone and inside a name
     for ch in list('*._ :/!^()[]-') + ['a', 'Z', '0', '9', ';', '<', '=', '>', '?', '@', '\\', ',', '+', "'", '`', '|', '~', '&', '#', '\t', '\u00e9', '{', '}', '$', '%']:
         for name in (ch, 'x' + ch + 'y', ch + 'z'):
